@@ -298,7 +298,17 @@ fn mutate(rng: &mut StdRng, s: &mut Vec<u8>) {
             let c = b"0123456789abcdefABCDEF"[rng.gen_range(0..22)];
             s.insert(i, c);
         }
-        10 => s.insert(0, pick(rng)),
+        10 => {
+            if s.len() > 2 && rng.gen_bool(0.5) {
+                // a multi-byte UTF-8 digit / letter look-alike in place of one character
+                const LA: [&[u8]; 6] = [b"\xD9\xA3", b"\xEF\xBC\x95", b"\xEF\xBC\xA2", b"\xE0\xA5\xA7", b"\xC2\xB3", b"\xF0\x9D\x9F\x97"];
+                let i = rng.gen_range(1..s.len());
+                let la = LA[rng.gen_range(0..LA.len())];
+                let _ = s.splice(i..i + 1, la.iter().copied());
+            } else {
+                s.insert(0, pick(rng));
+            }
+        }
         _ => {
             // lower-case everything
             for b in s.iter_mut() {
@@ -319,7 +329,11 @@ fn synth(rng: &mut StdRng) -> Vec<u8> {
         8 => rng.gen_range(120..=136),
         _ => rng.gen_range(250..=260),
     };
-    let data = rand_bytes(rng, n);
+    let data = match rng.gen_range(0..12) {
+        0 => vec![0xFF; n],
+        1 => vec![rng.r#gen(); n],
+        _ => rand_bytes(rng, n),
+    };
     let declared: u8 = match rng.gen_range(0..8) {
         0..=2 => n as u8,
         3 => (n as u8).wrapping_add(1),
@@ -328,8 +342,8 @@ fn synth(rng: &mut StdRng) -> Vec<u8> {
         6 => (n as u8).wrapping_add(128),
         _ => rng.r#gen(),
     };
-    let addr: u16 = rng.r#gen();
-    let ty: u8 = rng.r#gen();
+    let addr: u16 = if rng.gen_bool(0.15) { 0xFFFF } else { rng.r#gen() };
+    let ty: u8 = if rng.gen_bool(0.15) { 0xFF } else { rng.r#gen() };
     let mut payload = vec![declared, (addr >> 8) as u8, addr as u8, ty];
     payload.extend_from_slice(&data);
     let sum = payload.iter().fold(0u8, |a, &b| a.wrapping_add(b));
@@ -384,6 +398,46 @@ pub fn record_c03(a: &Args) -> usize {
     for s in fixed {
         out.emit(decode_event(s));
         n += 1;
+    }
+    // extreme field values: the largest possible byte sums (all 0xFF), with a right and a wrong checksum, both cases of digits
+    for len in [0usize, 1, 252, 253, 254, 255] {
+        for (addr, ty) in [(0xFFFFu16, 0xFFu8), (0xFFFE, 0xFF), (0x0200, 0xFE), (0, 0)] {
+            for fill in [0xFFu8, 0xFE, 0x00, 0x80] {
+                let mut d = vec![fill; len];
+                if len > 2 && fill == 0xFF && addr == 0x0200 {
+                    d[0] = 2;
+                    d[1] = 0;
+                }
+                let good = seed_encoding(addr, ty, &d, len % 2 == 0);
+                out.emit(decode_event(&good));
+                out.emit(decode_event(&good.to_ascii_lowercase()));
+                let mut bad = good.clone();
+                let k = bad.len() - if len % 2 == 0 { 3 } else { 1 };
+                bad[k] = if bad[k] == b'0' { b'1' } else { b'0' };
+                out.emit(decode_event(&bad));
+                n += 3;
+            }
+        }
+    }
+    // multi-byte UTF-8 look-alikes of digits and hex letters in a digit position of an otherwise well-formed frame
+    let lookalikes: Vec<&[u8]> = vec![
+        b"\xD9\xA0", b"\xD9\xA9", b"\xDB\xB5", b"\xE0\xA5\xA6", b"\xE0\xA5\xAF", b"\xEF\xBC\x90", b"\xEF\xBC\x99", b"\xEF\xBC\xA1", b"\xEF\xBC\xA6",
+        b"\xEF\xBD\x81", b"\xEF\xBD\x86", b"\xC2\xB2", b"\xC2\xBD", b"\xE2\x85\xA7", b"\xF0\x9D\x9F\x8E", b"\xF0\x9D\x9F\xBF", b"\xE1\x9F\xA0", b"\xE0\xB9\x90",
+    ];
+    for (li, la) in lookalikes.iter().enumerate() {
+        for (fi, base) in [seed_encoding(0, 0, &[], false), seed_encoding(0x1234, 4, &[0x0F], true), seed_encoding(3, 0, &[1, 2, 3], false)].iter().enumerate() {
+            let body = base.len() - if fi == 1 { 2 } else { 0 };
+            for pos in 1..body {
+                if (pos + li + fi) % 3 != 0 && pos != body - 1 && pos != 1 {
+                    continue;
+                }
+                let mut t = base[..pos].to_vec();
+                t.extend_from_slice(la);
+                t.extend_from_slice(&base[pos + 1..]);
+                out.emit(decode_event(&t));
+                n += 1;
+            }
+        }
     }
     while n < total {
         if n % 50 == 0 {
